@@ -204,8 +204,11 @@ INVARIANTS = ["CaseOK", "DoneRight", "RestUntouched", "ExistenceRule", "ExistsIf
               "MergeCommutes"]
 
 
-def cfg_text(T, depth, emit=True):
-    lines = ["SPECIFICATION Spec", "CONSTANTS", " T = %d" % T, " Depth = %d" % depth, " Cases <- MCCases"]
+def cfg_text(T, depth, emit=True, window=None):
+    """window = None: every children-first merge order is explored; else at most `window` ready positions run ahead."""
+    if window is None:
+        window = 4 ** max(depth - 1, 0) + 1
+    lines = ["SPECIFICATION Spec", "CONSTANTS", " T = %d" % T, " Depth = %d" % depth, " Cases <- MCCases", " Window = %d" % window]
     lines += ["INVARIANT %s" % i for i in INVARIANTS]
     if emit:
         lines.append("INVARIANT Emit")
@@ -213,12 +216,12 @@ def cfg_text(T, depth, emit=True):
     return "\n".join(lines) + "\n"
 
 
-def run_tlc_cases(ctx, name, T, depth, cases=None, cases_expr=None, emit=True, timeout=1800, workers=16):
+def run_tlc_cases(ctx, name, T, depth, cases=None, cases_expr=None, emit=True, timeout=1800, workers=16, window=None):
     """Model-check a family; returns the emitted terminal records."""
     if cases_expr is None:
         cases_expr = "{" + ",\n ".join(tla_case(c) for c in cases) + "}"
     text = tla.module(name, ["MCCascade"], [("MCCases", cases_expr)])
-    r = ctx.tlc(name, extra={name + ".tla": text}, cfg_text=cfg_text(T, depth, emit), timeout=timeout, workers=workers)
+    r = ctx.tlc(name, extra={name + ".tla": text}, cfg_text=cfg_text(T, depth, emit, window), timeout=timeout, workers=workers)
     recs = r.json_lines("R") if emit else []
     return r, recs
 
@@ -636,8 +639,9 @@ def enum_family_expr(quick):
         maps = "LeafMapsOver(%s)" % ms
     else:
         maps = "AllLeafMaps(%s)" % ENUM_VALS_THOROUGH
+    qmaps = "LeafMapsOver({%s})" % ", ".join(ENUM_MATRICES_QUICK)
     return ("EnumCases(\"Float\", TRUE, FALSE, %s, <<4>>, TRUE) \\cup EnumCases(\"Float\", FALSE, FALSE, %s, <<4>>, FALSE)"
-            % (maps, maps))
+            % (maps, qmaps))
 
 
 def enum_meta(rec, i, scratch):
@@ -730,11 +734,18 @@ def plan_binding(ctx, prop, plan, parallel_plan, only_fits=False, builder_runs=0
             for i, c in enumerate(fits_data[: builder_runs * (2 if depth == 2 else 1)]):
                 c["run"] = "builder-par2" if (c["run"] == "par2" or (i % 7 == 3 and depth == 2 and not quick)) else "builder"
         tasks.append({"name": "MC%sd%d" % (prop, depth), "T": T, "depth": depth, "cases": cases})
-    if not quick and not only_fits:
-        # depth 3 needs T = 8 for the lifting to stay exact through three levels
-        small = [(f, d, 1, 1) for f, d, _a, _b in plan]
-        cases = build_cases(ctx, 8, 3, small, [("fits", "f4", "par2"), ("png", "rgba", "par3")], mult=1, allow_keepu=allow_keepu)
-        tasks.append({"name": "MC%sd3" % prop, "T": 8, "depth": 3, "cases": cases, "chunk": 6})
+    if not quick:
+        # depth 3 needs T = 8 for the lifting to stay exact through three levels; TLC explores the merge orders in which
+        # at most 2 ready positions run ahead of the walk order (all 2^16 interleavings of level 2 are out of reach)
+        small = [(f, d, 0, 0) for f, d, _a, _b in plan if (f, d) in (("fits", "f4"), ("fits", "i2"), ("npy", "f4"), ("npy", "u1"),
+                                                                     ("png", "rgba"), ("png", "rgb"))]
+        cases = build_cases(ctx, 8, 3, small, [p for p in [("fits", "f4", "par2"), ("png", "rgba", "par3")] if p in parallel_plan or not only_fits],
+                            mult=1, allow_keepu=allow_keepu)
+        if builder_runs:
+            for c in cases:
+                if c["fmt"] == "fits" and c["has_data"] and not c["keepu"] and c["run"] == "serial":
+                    c["run"] = "builder"
+        tasks.append({"name": "MC%sd3" % prop, "T": 8, "depth": 3, "cases": cases, "chunk": 3, "window": 2})
     return tasks
 
 
@@ -754,7 +765,7 @@ def run_tasks(ctx, tasks, chunk=45, concurrent=6):
     def one(u):
         t, cases, name = u
         return run_tlc_cases(ctx, name, t["T"], t["depth"], cases=cases, cases_expr=t.get("expr"), timeout=3600,
-                             workers=max(2, 16 // concurrent))
+                             workers=max(2, 16 // concurrent), window=t.get("window"))
     with cf.ThreadPoolExecutor(max_workers=concurrent) as ex:
         outs = list(ex.map(one, units))
     res = []
@@ -783,13 +794,13 @@ def run(ctx):
     quick = ctx.quick
     # ---- depth-1 family enumerated by TLC itself (T = 2): all 16 leaf subsets x matrices, both row orders, stale files
     tasks = [{"name": "MCC02enum", "T": 2, "depth": 1, "expr": enum_family_expr(quick),
-              "family": "each of the 4 leaves absent or one of %s" % ("3 matrices" if quick else "all 16 matrices over {U,1}")}]
+              "family": "each of the 4 leaves absent or one of %s" % ("3 matrices, both row orders" if quick else "all 16 matrices over {U,1} bottom-up (17^4 populations) + 3 matrices top-down")}]
     # ---- harness-enumerated inputs, all modes / formats / run flavours
     tasks += plan_binding(ctx, "C02", QUICK_PLAN, PARALLEL_PLAN_QUICK)
     jobs = []
     for t, recs in run_tasks(ctx, tasks):
         if "expr" in t:
-            step = 2 if quick else 1
+            step = 2 if quick else 6
             jobs += [(enum_meta(rec, i, ctx.scratch), rec) for i, rec in enumerate(recs) if i % step == 0]
         else:
             jobs += jobs_for(ctx, t["cases"], recs)
